@@ -68,6 +68,8 @@ pub fn transliterate(d: Dialect, sql: &str) -> Result<String, String> {
                         "GREATEST" => "MAX".into(),
                         "LEAST" => "MIN".into(),
                         "CHAR_LENGTH" => "LENGTH".into(),
+                        // MySQL's LENGTH() counts bytes: not the portable character count
+                        "LENGTH" if d == Dialect::Mysql => "MYSQL_BYTE_LENGTH".into(),
                         "RAND" => "RANDOM".into(),
                         // MySQL's VALUES ROW(..) -> VALUES (..)
                         "ROW" if d == Dialect::Mysql => continue,
